@@ -36,8 +36,8 @@ abbrev Key := Str
 /-- Exceptions (same enum as `harness.common.exc_enum`). -/
 inductive Err where
   | syntax            -- Errors.Syntax (on-disk module rejected by lark)
-  | lark              -- raw lark exception (in-memory module: parser.py:88-89 has no try/except)
-  | fileNotFound      -- FileNotFoundError from the source loader
+  | lark              -- raw lark exception (unused since repo fix 12dd004: in-memory parse errors are wrapped)
+  | fileNotFound      -- FileNotFoundError from the source loader (unused since 12dd004: wrapped by the same handler)
   | symbolNotDefined  -- Errors.SymbolNotDefined
   | never             -- Errors.Never ('Already processing', restore_symbols.py:33-34)
   | unresolvedSymbol  -- Errors.UnresolvedSymbol (render time)
@@ -195,12 +195,14 @@ def onDisk (m : ModPath) : Bool := (E.disk m).isSome
 def parseModule (s : St L) (p : ModPath) : Except Err Tree × St L :=
   match E.disk p with
   | none =>
-    -- not in storage: taken from the source provider and parsed every time, lark's exception is not wrapped
+    -- not in storage: taken from the source provider and parsed every time; every exception of that branch — lark's, and
+    -- the FileNotFoundError of the provider for a module that is neither a file nor the in-memory module — is
+    -- wrapped into Errors.Syntax (parser.py:88-92, since fix 12dd004)
     if p = E.main then
       match L.parse s.mainSrc with
       | some t => (.ok t, s)
-      | none => (.error .lark, s)
-    else (.error .fileNotFound, s)
+      | none => (.error .syntax, s)
+    else (.error .syntax, s)
   | some src =>
     match alookup s.ast p with
     | some t => (.ok t, s)
